@@ -165,6 +165,11 @@ pub fn run(args: &Args) -> serde_json::Value {
                 oracle_failures.push(json!({"what": format!("spin-state trajectory diverges at step {} after conversion (h = 0)", s), "context": ctx}));
             }
         }
+        distinct.insert(format!("{:?}{:?}{}", sl0, st0, c0));
+        coq.push(format!("C15.Conv {} {}%nat {} {} false {}%nat {} {} {} {} {} {}", spec.coq(), c0, cq::bools(&st0), slots_coq(&sl0),
+            c1, cq::bools(&st1), slots_coq(&sl1), cq::q(q.get_offset()),
+            cq::list(&elements, |row| cq::list(row, |x| cq::opt(x, |v| cq::q(*v)))),
+            cq::b(q.should_do_cluster_update()), cq::b(q.should_do_loop_update())));
         // The converted sampler is an ordinary generic sampler: further interactions may be added to it. The container
         // it inherited was sized for the Ising bonds; the per-bond counts must keep agreeing with a scan (C11) and no
         // update may panic (C15: the converted sampler is usable like any other).
@@ -194,11 +199,6 @@ pub fn run(args: &Args) -> serde_json::Value {
                 Err(_) => oracle_failures.push(json!({"prop": "C11,C15", "what": "the converted sampler panicked after one more interaction was added to it (make_diagonal_interaction on an existing spin, then time steps)", "context": ctx})),
             }
         }
-        distinct.insert(format!("{:?}{:?}{}", sl0, st0, c0));
-        coq.push(format!("C15.Conv {} {}%nat {} {} false {}%nat {} {} {} {} {} {}", spec.coq(), c0, cq::bools(&st0), slots_coq(&sl0),
-            c1, cq::bools(&st1), slots_coq(&sl1), cq::q(q.get_offset()),
-            cq::list(&elements, |row| cq::list(row, |x| cq::opt(x, |v| cq::q(*v)))),
-            cq::b(q.should_do_cluster_update()), cq::b(q.should_do_loop_update())));
         if ci % 37 == 0 {
             samples.push(json!({"nvars": spec.nvars, "edges": spec.edges.len(), "h": spec.h, "steps_before": k, "cutoff": c0, "n": sl0.iter().flatten().count(),
                 "lockstep_steps": m, "diverged_at": diverged_at}));
